@@ -314,6 +314,8 @@ _MINE = {
     np.any: _np_reduce(np.any, "numpy.any", lambda e, a: _all_any(e, a, False)),
     np.argsort: _np_argsort, np.sort: _np_sort, np.searchsorted: _np_searchsorted,
 }
+# functions for which a stock model (pyvc/npmodels.py), where one exists, takes precedence: this file only fills the gap
+_STOCK_FIRST = {np.all, np.any}
 _METHODS = {"min": _m_min, "max": _m_max, "argsort": _m_argsort, "searchsorted": _m_searchsorted}
 
 
@@ -333,6 +335,10 @@ class ModelsProxy:
             m = _MINE.get(fn)
         except TypeError:
             m = None
+        if m is not None and fn in _STOCK_FIRST:
+            stock = models.lookup_model(fn)
+            if stock is not None:
+                return stock
         return m if m is not None else models.lookup_model(fn)
 
     def method_of(self, eng, v, name):
